@@ -281,7 +281,7 @@ func exec(op string) string {
 	if !ok {
 		return "bad-op"
 	}
-	res := vh.SafeTimeout(2*time.Second, func() string {
+	res := vh.SafeTimeout(30*time.Second, func() string { // generous: the verdict must not depend on machine load
 		c, err := condition.Build(string(src))
 		if err != nil {
 			return "err"
